@@ -234,6 +234,36 @@ def with_delins(r, y):
     return yaml.safe_dump(doc, sort_keys=False, default_flow_style=None)
 
 
+def with_siblings(r, y):
+    """the same database plus sibling minor alleles of the reference allele: one with three silent SNPs, two with a silent
+    SNP at ONE position and different alternative bases (a multi-allelic site), two with silent SNPs at further positions"""
+    doc = yaml.safe_load(y)
+    seq = doc["reference"]["seq"]
+    L = len(seq)
+    used = {e[0] + k for a in doc["alleles"].values() for e in a["mutations"] if isinstance(e[0], int) for k in range(-2, 4)}
+    lo = L // 2 + 2 if len(doc["structure"]["genes"]) > 1 else 3
+    cand = [p for p in range(lo, L - 4) if p not in used]
+    if len(cand) < 6:
+        return y
+    ps = r.sample(cand, 6)
+
+    def snp(p, avoid=()):
+        ref = seq[p - 1]
+        alt = r.choice([b for b in "ACGT" if b != ref and b not in avoid])
+        return [p, f"{ref}>{alt}", "-"], alt
+
+    name = doc["name"]
+    m1, _ = snp(ps[0]); m2, _ = snp(ps[1]); m3, _ = snp(ps[2])
+    doc["alleles"][f"{name}*1.071"] = {"mutations": [m1, m2, m3]}
+    a1, alt1 = snp(ps[3])
+    a2, _ = snp(ps[3], avoid=(alt1,))
+    doc["alleles"][f"{name}*1.072"] = {"mutations": [a1]}
+    doc["alleles"][f"{name}*1.073"] = {"mutations": [a2]}
+    doc["alleles"][f"{name}*1.074"] = {"mutations": [snp(ps[4])[0]]}
+    doc["alleles"][f"{name}*1.075"] = {"mutations": [snp(ps[5])[0]]}
+    return yaml.safe_dump(doc, sort_keys=False, default_flow_style=None)
+
+
 def load(yml_text, genome="hg19", name="GEN"):
     from aldy.gene import Gene
     return Gene(None, name=name, yml=yml_text, genome=genome)
